@@ -3,7 +3,7 @@ ID = "C04"
 LEVEL = "proof"
 TAGS = ("C04",)
 CONTRACT_MODULES = ALL_CONTRACTS
-FUNCTIONS = MOTION_FUNCS + HANDLER_FUNCS + AXIS_FUNCS[1:4] + [S + "resetState"]
+FUNCTIONS = MOTION_FUNCS + HANDLER_FUNCS + AXIS_FUNCS[1:4] + [S + "resetState"] + [P + "on_event"]
 SELFCHECK = [S + "processLinearMoves", "RetractionState.RetractionState._addCommands", H + "_handle_G92"]
 ASSUMPTIONS = ["A1", "A2", "A3", "A4", "A5", "INDUCTION"]
 EXTRA_ASSUMPTIONS = ["domain ghost of the property: absolute extrusion; matched retract/recover cycles (an E-only recovery never arrives while a recovery is still owed)"]
